@@ -27,26 +27,27 @@ private def deletedJob : Job :=
                                                        runningTimestamp := some (sec 2) }] } }
 
 /-- `finalizer_sweeps_then_waits`.  For a Job with deletion timestamp that carries the
-delete-dependents finalizer:
-* every call the finalizer step appends is a graceful pod delete of a task of the status that
-  was FOUND (`getTaskForRef`: cache or live GET);
-* if any task is found, each found task gets its delete call (unless its deletion timestamp is
-  already set and earlier than the clock), and the finalizer is KEPT in every successful result;
-  with no fault pending the step succeeds;
-* only if no task is found the step issues no call and DROPS the finalizer.
+delete-dependents finalizer, with `finalizerTasks s jo rj` = the tasks of the status that were
+FOUND (`getTaskForRef`: cache or live GET, absence confirmed by a live GET) followed by the
+UNRECORDED tasks of the Job in the pod cache (repair of F-C20-1; `finalizerTasks_mem`):
+* every call the finalizer step appends is a graceful pod delete of one of these tasks;
+* if there is any, each of them gets its delete call (unless its deletion timestamp is already
+  set and earlier than the clock), and the finalizer is KEPT in every successful result; with no
+  fault pending the step succeeds;
+* only if there is none the step issues no call and DROPS the finalizer.
 For a Job without deletion timestamp, or without the finalizer, the step does nothing. -/
 theorem finalizer_sweeps_then_waits (s : Sys) (jo : JobObj) (rj : Job) (fz : Bool) :
     (∀ c ∈ newCalls s (handleFinalizer s jo rj fz).1,
       c.verb = "delete" ∧ c.res = "pods" ∧ c.force = false ∧ rj.deletionTimestamp.isSome = true ∧ fz = true ∧
-      ∃ t ∈ tasksForRefsConfirmed s rj.status.tasks, t.name = c.name) ∧
+      ∃ t ∈ finalizerTasks s jo rj, t.name = c.name) ∧
     ((rj.deletionTimestamp = none ∨ fz = false) → handleFinalizer s jo rj fz = (s, some (rj, fz))) ∧
     (rj.deletionTimestamp.isSome = true → fz = true →
-      (tasksForRefsConfirmed s rj.status.tasks ≠ [] →
-        (∀ t ∈ tasksForRefsConfirmed s rj.status.tasks, (∀ ts, t.deletionTimestamp = some ts → ¬ ts < s.clock) →
+      (finalizerTasks s jo rj ≠ [] →
+        (∀ t ∈ finalizerTasks s jo rj, (∀ ts, t.deletionTimestamp = some ts → ¬ ts < s.clock) →
           ∃ c ∈ newCalls s (handleFinalizer s jo rj fz).1, c.verb = "delete" ∧ c.res = "pods" ∧ c.name = t.name) ∧
         (∀ rj' f', (handleFinalizer s jo rj fz).2 = some (rj', f') → f' = true) ∧
         (NoFault s → ∃ rj', (handleFinalizer s jo rj fz).2 = some (rj', true))) ∧
-      (tasksForRefsConfirmed s rj.status.tasks = [] →
+      (finalizerTasks s jo rj = [] →
         newCalls s (handleFinalizer s jo rj fz).1 = [] ∧ ∃ rj', (handleFinalizer s jo rj fz).2 = some (rj', false))) := by
   obtain ⟨l, e, hall, hoff, hon⟩ := handleFinalizer_ext s jo rj fz
   rw [e.newCalls]
@@ -63,6 +64,45 @@ theorem finalizer_sweeps_then_waits (s : Sys) (jo : JobObj) (rj : Job) (fz : Boo
     obtain ⟨c, hc, hn⟩ := hcov t ht (Or.inr hw)
     exact ⟨c, hc, (hall c hc).1, (hall c hc).2.1, hn⟩
 
+/-- what `finalizerTasks` consists of: a task of the status that could still be found, or the task
+of a cached pod labelled with and controlled by the Job that is neither found nor recorded -/
+theorem finalizerTasks_mem (s : Sys) (jo : JobObj) (rj : Job) (t : Task) :
+    t ∈ finalizerTasks s jo rj ↔
+      t ∈ tasksForRefsConfirmed s rj.status.tasks ∨
+      ∃ p ∈ s.podCache, podTask p = some t ∧ p.jobLabel = some jo.uid ∧ p.ownerUid = some jo.uid ∧
+        (∀ t' ∈ tasksForRefsConfirmed s rj.status.tasks, t'.name ≠ p.pod.name) ∧
+        (∀ r ∈ rj.status.tasks, r.name ≠ p.pod.name) :=
+  mem_finalizerTasks s jo rj t
+
+/-- `unrecorded_task_swept`: a pod of the pod cache that the Job created but never recorded
+(labelled with and controlled by the Job, named by no task of the status) and that is not being
+deleted yet gets a graceful delete call from the finalizer step of a deleted Job, whatever the
+faults, and the finalizer is kept. -/
+theorem unrecorded_task_swept (s : Sys) (jo : JobObj) (rj : Job) (p : PodObj) (t : Task)
+    (hd : rj.deletionTimestamp.isSome = true) (hp : p ∈ s.podCache) (ht : podTask p = some t)
+    (hl : p.jobLabel = some jo.uid) (ho : p.ownerUid = some jo.uid)
+    (hu : ∀ r ∈ rj.status.tasks, r.name ≠ p.pod.name) (hnd : t.deletionTimestamp = none) :
+    (∃ c ∈ newCalls s (handleFinalizer s jo rj true).1, c.verb = "delete" ∧ c.res = "pods" ∧ c.force = false ∧ c.name = t.name) ∧
+    (∀ rj' f', (handleFinalizer s jo rj true).2 = some (rj', f') → f' = true) := by
+  have hmem : t ∈ finalizerTasks s jo rj := by
+    by_cases hf : t ∈ tasksForRefsConfirmed s rj.status.tasks
+    · exact (mem_finalizerTasks s jo rj t).mpr (Or.inl hf)
+    · by_cases hn : ∀ t' ∈ tasksForRefsConfirmed s rj.status.tasks, t'.name ≠ p.pod.name
+      · exact (mem_finalizerTasks s jo rj t).mpr (Or.inr ⟨p, hp, ht, hl, ho, hn, hu⟩)
+      · -- a found task carries the name of a ref of the status, which `p` is not named after
+        exfalso
+        obtain ⟨t', hn⟩ := Classical.not_forall.mp hn
+        obtain ⟨ht', hn'⟩ := Classical.not_imp.mp hn
+        have hn' : t'.name = p.pod.name := Classical.not_not.mp hn'
+        obtain ⟨r, hr, hname⟩ := tasksForRefsConfirmed_name ht'
+        exact hu r hr (hname ▸ hn')
+  have hne : finalizerTasks s jo rj ≠ [] := by intro h; rw [h] at hmem; cases hmem
+  obtain ⟨hall, _, hon⟩ := finalizer_sweeps_then_waits s jo rj true
+  obtain ⟨hcov, hkeep, _⟩ := (hon hd rfl).1 hne
+  refine ⟨?_, hkeep⟩
+  obtain ⟨c, hc, hv, hr, hn⟩ := hcov t hmem (by intro ts h; rw [hnd] at h; cases h)
+  exact ⟨c, hc, hv, hr, (hall c hc).2.2.1, hn⟩
+
 /-- `finalizer_sweeps_then_waits`: while the pod exists it is deleted gracefully and the finalizer
 is kept; once it is gone (neither cached nor on the server) the finalizer is dropped. -/
 example :
@@ -73,6 +113,20 @@ example :
     (handleFinalizer s jo deletedJob true).2.map (·.2) = some true ∧
     newCalls gone (handleFinalizer gone jo deletedJob true).1 = [] ∧
     (handleFinalizer gone jo deletedJob true).2.map (·.2) = some false := by
+  decide
+
+/-- `unrecorded_task_swept`: the deleted Job's status lists nothing, the pod cache holds the pod it
+created (the recording status update failed): the finalizer step deletes it and keeps the
+finalizer; once the pod is gone the finalizer is dropped. -/
+example :
+    let rj : Job := { deletedJob with status := { startTime := some (sec 1) } }
+    let p : PodObj := { pod with pod := { pod.pod with phase := .pending, startTime := none, containers := [] } }
+    let s : Sys := { clock := sec 100, d := { hash := "d" }, pods := [p], podCache := [p] }
+    let jo : JobObj := ⟨"job", "u", rj, true, 1⟩
+    (podTask p).isSome = true ∧ rj.status.tasks = [] ∧
+    (newCalls s (handleFinalizer s jo rj true).1).map brief = [("delete", "pods", "job-d-0", "ok", false)] ∧
+    (handleFinalizer s jo rj true).2.map (·.2) = some true ∧
+    (handleFinalizer { s with pods := [], podCache := [] } jo rj true).2.map (·.2) = some false := by
   decide
 
 /-- A Job that is being deleted gets no task handling at all (Appendix A item 7): every call of a
